@@ -293,6 +293,9 @@ var vhC05ArgTpl = []string{
 	"{{ 5 is divisible_by(v) }}", "{{ 'a' is same_as(v) }}", "{{ 'ab' starts with v }}", "{{ 'ab' ends with v }}", "{{ 'a' in v }}", "{{ v in 'ab' }}", "{{ 5 % v }}", "{{ 5 / v }}",
 	"{{ [3, 1]|sort(v)|length }}", "{{ [1, 2]|reverse(v)|length }}", "{{ {'a': 1}|merge(v)|length }}", "{{ [1]|merge(v)|length }}", "{{ 'ab'|first(v) }}", "{{ [1, 2]|column(v)|length }}", "{{ 'a'|nl2br(v) }}",
 	"{{ 'x'|length(v) }}", "{{ include(v, w) }}", "{{ 'a'|convert_encoding(v, w) }}", "{{ 'a'|capitalize(v) }}", "{{ 'a'|upper(v) }}", "{{ v[w] }}", "{{ 'abc'[v] }}", "{{ [1, 2][v] }}", "{{ v ? w : v }}", "{{ v ?: w }}", "{{ v ?? w }}",
+	// both operands of a comparison with the same (possibly uncomparable) shape; drawn numbers with arbitrary bounds
+	"{{ v is same_as(v) }}", "{{ v is same_as([w, 2]) }}", "{{ [v] is same_as([v]) }}", "{{ {'a': v} is same_as({'a': 1}) }}", "{{ v == v }}", "{{ [v] == [w] }}", "{{ v in [v] }}", "{{ [v] in [[v]] }}",
+	"{{ random(v) }}", "{{ random(v, w) }}", "{{ random(w, v) }}", "{{ random() }}", "{{ v is divisible_by(w) }}", "{{ v // w }}", "{{ v ** w }}", "{{ v b-and w }}",
 }
 
 func vhC05Arg(nshapes int, small bool) (interface{}, string) {
